@@ -1,16 +1,24 @@
 #!/usr/bin/env python3
 """C04 — models: batch = single evaluation, parameter vector round trip, derivatives are the derivatives.
 
-  proofs          Properties_C04.v (axiom-free, any commutative ring): row r of a batch evaluation is the single evaluation of row r
-                  whatever the other rows are (LinearModel with any row activation, ConcatenatedModel, Normalizer, Classifier); parameter
-                  round trip + count; combined = separate derivative call; chain rule: the coded weighted parameter / input derivative of
-                  a layer and of a concatenation is the tangent (dual numbers) of the coefficient-weighted output sum; for Linear
-                  activations the tangent is the first-order Taylor coefficient with an explicit polynomial remainder.
+  proofs          Properties_C04.v (axiom-free, any commutative ring).  LinearModel x activations, ConcatenatedModel, Normalizer,
+                  Classifier: batch = single, parameter round trip + count, combined = separate, chain rule (dual numbers), Linear
+                  activations = exact polynomial identity.  Extension: Conv2DModel at index level (im2mat/im2mat_pad + gemm, reorder,
+                  backprop filters; batch = single, round trip, derivative core for any delta, Linear activation = exact polynomial
+                  identity, activation pair = dual numbers); PoolingLayer (value at coded arg max, tie rule = first maximum, cleared
+                  buffer, derivative routes to the arg max, exact affine identity where the arg max does not move); ResizeLayer (linear map,
+                  scatter derivative = adjoint, exact); ConcatenatedModel over arbitrary layers with optimisation flags (round trip skips
+                  frozen layers, batch = single, chain rule with gradient blocks only for optimised layers; instantiated for Conv2D /
+                  Linear / Neuron / Pooling / Resize layers); RBFLayer (batch = single, round trip through log(gamma)); CMACMap (linear in
+                  the parameters, scatter derivative = gradient, exact); Ensemble (batch = single).
   correspondence  extracted model (float instantiation) vs harness/c04_models.cpp compiled from /repo on generated cases:
-                  LinearModel x 7 activations, ConcatenatedModel of 2-4 LinearModels, Normalizer, Classifier<LinearModel>;
-                  exact on dyadic inputs with Linear / Rectifier activations, 1e-12 relative otherwise.
-  spec monitor    (independent of the model, on ALL anchored classes: the above + NeuronLayer, Conv2DModel, PoolingLayer, ResizeLayer,
-                  RBFLayer, CMACMap, KernelExpansion, Ensemble, heterogeneous concatenations with optimisation flags on/off)
+                  LinearModel x 7 activations, NeuronLayer x 7, Normalizer, Classifier<LinearModel>, Conv2DModel x activations (both
+                  paddings, even / odd / one-sided / image-sized / larger-than-image filters, channels and filters > 1), PoolingLayer
+                  (incl. tie and non-divisible streams), ResizeLayer, RBFLayer, CMACMap, Ensemble<LinearModel>, ConcatenatedModel of
+                  any of these with optimisation flags on/off (parameter vector, features, eval, all three derivative calls);
+                  exact on dyadic inputs with Linear / Rectifier activations, for pooling, CMAC and (bit for bit: same order of floating
+                  point operations) ResizeLayer; 1e-12 relative otherwise.  Not modelled: KernelExpansion.
+  spec monitor    (independent of the model, on ALL anchored classes: the above + KernelExpansion)
                   batch eval with state = without state = eval(single) = operator() = row alone = row in a reversed / padded batch;
                   numberOfParameters = independent formula = length of parameterVector(), set/get round trip;
                   combined derivative call = separate calls; both = central finite differences of the weighted output sum.
@@ -440,11 +448,15 @@ def main():
     ck = Check(PID)
     ck.trusted = DEFAULT_TRUSTED + [
         "float instantiation of the model uses OCaml's IEEE double operations and libm tanh/exp; comparison exact for Linear/Rectifier activations on dyadic inputs, 1e-12 relative otherwise",
-        "modelled not verified: BLAS gemm/gemv summation order (irrelevant on the exact stream), libm tanh/exp, remora expression templates",
+        "modelled not verified: BLAS gemm/gemv summation order (irrelevant on the exact stream), libm tanh/exp/log, remora expression templates, distanceSqr's choice of algorithm by batch size",
+        "in a non-exact ConcatenatedModel case a rectifier argument or a pooling gap below 1e-10 (relative; reported by the model driver as km) is treated as decided by rounding: derivatives are then not compared, values are",
         "finite differences (h = 2^-17, central, kinks detected by forward/backward disagreement) are the ground truth of the derivative monitor"]
     ck.assumptions = [
         "derivative theorems: element-wise activations enter as a pair (phi, dphi) with the derivative written in the OUTPUT, as in NeuronLayers.h; that dphi o phi is the analytic derivative of tanh/logistic/fast sigmoid is monitored by finite differences, not proved",
-        "softmax / normaliser row activations, NeuronLayer, convolution, pooling, resize, RBF, CMAC, kernel expansion, ensembles: compared (first two) or monitored only",
+        "softmax / normaliser row activations (also inside Conv2DModel / NeuronLayer): compared, their derivative theorems are not proved; RBFLayer derivative: compared only; KernelExpansion: monitored only",
+        "max pooling is not differentiable at ties: the theorems give the tie rule (first maximum) and the exact derivative where the arg max does not move; the comparison with the model covers ties exactly",
+        "ResizeLayer: proved linear with the scatter derivative as adjoint for arbitrary weights; that the weights are B-spline weights is not proved; the sample points of setStructure are modelled as coded",
+        "RBFLayer round trip theorem assumes log(exp x) = x (reals); in floating point the check compares at 1e-12",
         "derivatives are monitored away from kinks (rectifier/fast-sigmoid at 0, pooling ties, CMAC tile borders): entries whose forward and backward difference quotients disagree are skipped and counted",
         "NormalizerNeuron is exercised with positive inputs and weights (its documented domain)",
         "well-shaped arguments (the SIZE_CHECK preconditions of the library)"]
@@ -552,7 +564,7 @@ def main():
                      "correspondence C04Model vs %s no longer checks (%s; %d cases differ); the spec monitor passes on these inputs" % (c.an.name, why, len(dis)), no_input=True)
     ck.oblige("spec monitor (batch = single, parameter round trip, combined = separate, derivatives = finite differences) on %d cases of %d model classes" % (len(cases), len(per_class)),
               nfail == 0, "" if not nfail else "%d failures (%d distinct keys)" % (nfail, len([k for k in allkeys if ck.match_known(k) is None])))
-    ck.oblige("correspondence C04Model (float instantiation) = LinearModel / ConcatenatedModel / Normalizer / Classifier on %d cases" % ncmp, not dis,
+    ck.oblige("correspondence C04 models (float instantiation) = LinearModel / NeuronLayer / Normalizer / Classifier / Conv2DModel / PoolingLayer / ResizeLayer / RBFLayer / CMACMap / Ensemble / ConcatenatedModel with optimisation flags on %d cases" % ncmp, not dis,
               "" if not dis else "%d disagreements, first: %s" % (len(dis), dis[0][1]))
     open(os.path.join(tmpd, "failing_cases.txt"), "w").write("\n".join(faillog) + "\n")
     ck.cov["evaluations"] = evals
